@@ -15,8 +15,10 @@ RULE = ("boards: every board with <= 3 tiles (quick) / <= 4 tiles (thorough) ove
         "1x1, 1xk, kx1, kxk x probabilities 0.01/0.5/0.99 x force-down on/off, and the manual entry point. "
         "non-trivial = board with >= 2 tiles; distinct by (board, probabilities). In the thorough tier one in %d of the "
         "4-tile boards also goes through the Coq model, all go through the implementation and the predicates; "
-        "solving: every game of the <= 3-tile, random, command-line and manual inputs, one in 16 of the 4-tile boards, "
-        "limit 60 s per solve (300 s for the larger boards)." % bc.FOUR_TILE_MODEL_EVERY)
+        "solving (pruned first, unpruned only after a pruned success, as run_games does): quick = every board with <= 2 tiles, one in 8 "
+        "of the 3-tile boards, all random, command-line and manual inputs; thorough = all of these and one in 16 of the "
+        "4-tile boards; limit 60 s per solve (300 s for the larger boards) on inputs that pass the termination guard "
+        "(no rewarded end component in the conditioned graph, computed from the input), 4 s and outcome only counted on the others." % bc.FOUR_TILE_MODEL_EVERY)
 ASSUMPTIONS = ["the text layer (str(dict) + .replace, eval) is not modelled: the file read back is compared with the model's games on every generated input, and eval is compared with ast.literal_eval on the unmodified text",
                "probability theorems are about exact rationals (instance Q); on binary64 p + (1-p) == 1.0 is observed on every generated file",
                "arrow codes 0..3 and loose codes 0..1 (write_preamble raises IndexError otherwise), rectangular boards",
@@ -325,6 +327,12 @@ def run(ctx):
             it = good[len(good) // 2]
             ctx.sample(dict(board=bc.public(it["case"]), game_a=str(it["games"]["game_a"])[:400]))
         small = [it for it in good if it["src"] in ("exh", "rnd")]
+        if ctx.quick:
+            # budget: every board with <= 2 tiles, every random board, one in 8 of the 3-tile boards
+            three = [it for it in small if it["src"] == "exh" and it["case"]["L"] * it["case"]["W"] == 3]
+            keep = set(id(it) for k, it in enumerate(three) if k % 8 == 0)
+            small = [it for it in small if not (it["src"] == "exh" and it["case"]["L"] * it["case"]["W"] == 3)
+                     or id(it) in keep]
         four = [it for k, it in enumerate(it for it in good if it["src"] == "exh4") if k % 16 == 0]
         bigs = [it for it in good if it["src"] == "big"]
         solve_items(ctx, small + four, 60, "c11s%d" % nb)
